@@ -72,7 +72,29 @@ func (i *Index) FirstNodeByNameStr(name string) (Node, bool) {
 	if !exists || len(node) == 0 {
 		return InvalidNode, false
 	}
-	return node[0], true
+	return firstNonDirectiveDefinition(node), true
+}
+
+// firstNonDirectiveDefinition: types and directives live in different namespaces, but directive definitions are
+// registered under their bare name as well. A lookup by name means the type, unless only a directive has the name.
+func firstNonDirectiveDefinition(nodes []Node) Node {
+	for j := range nodes {
+		if nodes[j].Kind != NodeKindDirectiveDefinition {
+			return nodes[j]
+		}
+	}
+	return nodes[0]
+}
+
+// FirstDirectiveDefinitionByNameBytes returns the directive definition registered under name.
+func (i *Index) FirstDirectiveDefinitionByNameBytes(name []byte) (Node, bool) {
+	nodes := i.nodes[xxhash.Sum64(name)]
+	for j := range nodes {
+		if nodes[j].Kind == NodeKindDirectiveDefinition {
+			return nodes[j], true
+		}
+	}
+	return InvalidNode, false
 }
 
 func (i *Index) NodesByNameBytes(name []byte) ([]Node, bool) {
@@ -87,7 +109,7 @@ func (i *Index) FirstNodeByNameBytes(name []byte) (Node, bool) {
 	if !exists || len(node) == 0 {
 		return InvalidNode, false
 	}
-	return node[0], true
+	return firstNonDirectiveDefinition(node), true
 }
 
 func (i *Index) FirstNonExtensionNodeByNameBytes(name []byte) (Node, bool) {
@@ -98,11 +120,17 @@ func (i *Index) FirstNonExtensionNodeByNameBytes(name []byte) (Node, bool) {
 	}
 
 	for j := range nodes {
-		if nodes[j].IsExtensionKind() {
+		if nodes[j].IsExtensionKind() || nodes[j].Kind == NodeKindDirectiveDefinition {
 			continue
 		}
 
 		return nodes[j], true
+	}
+	// only a directive has the name
+	for j := range nodes {
+		if !nodes[j].IsExtensionKind() {
+			return nodes[j], true
+		}
 	}
 
 	return InvalidNode, false
